@@ -802,11 +802,17 @@ def estimate_symbolic_duration(
             # NOTE: Guess tuplets (Naive) it doesn't cover composite durations from tied notes.
             type = SYM_STRAIGHT_DURS[i + 1]["type"]
             normal_notes = 2
-            while (normal_notes * STRAIGHT_DURS[i + 1] / qdur) % 1 > eps:
+            # the ratio must be an integer up to numerical imprecision in either
+            # direction: 28.000000000000004 is 28 actual notes, not 29
+            straight_dur = float(STRAIGHT_DURS[i + 1])
+            qdur = float(qdur)
+            ratio = normal_notes * straight_dur / qdur
+            while abs(ratio - round(ratio)) > eps:
                 normal_notes += 1
+                ratio = normal_notes * straight_dur / qdur
             return {
                 "type": type,
-                "actual_notes": math.ceil(normal_notes * STRAIGHT_DURS[i + 1] / qdur),
+                "actual_notes": int(round(ratio)),
                 "normal_notes": normal_notes,
             }
 
